@@ -1,7 +1,7 @@
 (* C09 — reference statistics equal direct computation and are additive.
    Property theorems only: each is closed by `exact <lemma>` (lemmas in Proofs/StatsP.v). *)
 From Coq Require Import ZArith List Bool Arith Permutation.
-From CTM Require Import Base.Sx Base.SortX Model.Tree Model.Stats Proofs.TreeP Proofs.StatsP Proofs.StatsTruncP Proofs.StatsMergeP.
+From CTM Require Import Base.Sx Base.SortX Model.Tree Model.Stats Proofs.TreeP Proofs.StatsP Proofs.StatsTruncP Proofs.StatsMergeP Proofs.StatsGuardP.
 Import ListNotations.
 Open Scope Z_scope.
 
@@ -83,11 +83,34 @@ Theorem c09_partition_independent_pairwise : forall D leaf files files' rows row
 Proof. exact partition_independent. Qed.
 Print Assumptions c09_partition_independent_pairwise.
 
-(* cells not named by the taxonomy contribute nothing: removing them changes no row *)
-Theorem c09_unlabelled_contribute_nothing : forall D ng lookup r cells,
-  stats_of_rows D ng (members lookup r cells) =
-  stats_of_rows D ng (members lookup r (filter (named lookup) cells)).
-Proof. exact unnamed_contribute_nothing. Qed.
+(* cells not named by the taxonomy contribute nothing (re-stated after the audit: the
+   former statement was the idempotence of the filter inside `members`).
+   in_taxonomy leaf c  := the name of cell c is listed under some leaf cluster;
+   strip_unlabelled leaf f := the file f without the cells that are not in_taxonomy.
+   The table written for a set of files is a function of the multiset of their LABELLED
+   cells alone: two sets of files whose labelled cells agree - whatever unlabelled cells
+   either contains, however the cells are spread over files, in whatever order, for
+   every rows_at_a_time and worker count of either run - give the same result (the same
+   table, or E_NOWORK for both when no cell is labelled). *)
+Theorem c09_only_labelled_cells_matter : forall D leaf files files' rows rows' p p' ng,
+  NoDup (map fst leaf) -> (1 <= rows)%nat -> (1 <= rows')%nat -> (1 <= p)%nat -> (1 <= p')%nat ->
+  files_wf ng files -> files_wf ng files' ->
+  Permutation (filter (in_taxonomy leaf) (all_cells files)) (filter (in_taxonomy leaf) (all_cells files')) ->
+  precompute D leaf files rows p = precompute D leaf files' rows' p'.
+Proof. exact only_labelled_cells_matter. Qed.
+Print Assumptions c09_only_labelled_cells_matter.
+
+(* in particular: a file containing cells whose label is not in the taxonomy gives the same
+   table as the file without those cells, for every split into chunks and workers of
+   either run (the stripped files are again well-formed input and hold exactly the
+   labelled cells) *)
+Theorem c09_unlabelled_contribute_nothing : forall D leaf files rows rows' p p' ng,
+  NoDup (map fst leaf) -> (1 <= rows)%nat -> (1 <= rows')%nat -> (1 <= p)%nat -> (1 <= p')%nat ->
+  files_wf ng files ->
+  files_wf ng (map (strip_unlabelled leaf) files) /\
+  all_cells (map (strip_unlabelled leaf) files) = filter (in_taxonomy leaf) (all_cells files) /\
+  precompute D leaf files rows p = precompute D leaf (map (strip_unlabelled leaf) files) rows' p'.
+Proof. exact unlabelled_contribute_nothing. Qed.
 Print Assumptions c09_unlabelled_contribute_nothing.
 
 Definition c09_leaf : level := [(20, [1; 2; 5]); (10, [3]); (30, [])].
@@ -97,6 +120,15 @@ Definition c09_files : list h5ad :=
 Definition c09_files' : list h5ad :=
   [ mk_h5ad [100; 101] [(2, [1; 1])]; mk_h5ad [100; 101] [(3, [0; 16]); (5, [9; 7])];
     mk_h5ad [100; 101] [(9, [16; 16]); (1, [8; 4])] ].
+(* c09_files holds the unlabelled cell 9 (and c09_leaf an empty cluster): stripping it
+   changes the first file and not the table *)
+Example c09_unlabelled_nonvacuous :
+  map (strip_unlabelled c09_leaf) c09_files =
+    [ mk_h5ad [100; 101] [(1, [8; 4]); (3, [0; 16])]; mk_h5ad [100; 101] [(5, [9; 7]); (2, [1; 1])] ] /\
+  map (strip_unlabelled c09_leaf) c09_files <> c09_files /\
+  precompute 8 c09_leaf c09_files 2 3 = precompute 8 c09_leaf (map (strip_unlabelled c09_leaf) c09_files) 1 2.
+Proof. split; [vm_compute; reflexivity|]. split; [vm_compute; discriminate | vm_compute; reflexivity]. Qed.
+
 Example c09_partition_nonvacuous :
   NoDup (map fst c09_leaf) /\ files_wf 2 c09_files /\ files_wf 2 c09_files' /\
   Permutation (all_cells c09_files) (all_cells c09_files') /\
@@ -445,4 +477,58 @@ Proof.
   split.
   { cbn [map]. apply perm_swap. }
   split; eexists; vm_compute; reflexivity.
+Qed.
+
+(* ------------------------------------------------------------------ *)
+(* 'ge1' ("at least 1 CPM") against the exact threshold (audit: ind_ge1 is "> 1 - 1e-6").
+   The real code (utils/stats_utils.py:summary_stats_for_chunk) computes
+       one_cutoff = 1.0; eps = 1.0e-6  # for float comparisons
+       result['gt1'] = (data > one_cutoff).sum(axis=0)
+       result['ge1'] = (data > one_cutoff-eps).sum(axis=0)
+   on data = log2(CPM+1): ge1 is NOT a ">=" but a ">" against the binary64 number
+   1.0 - 1.0e-6 = GE_NUM / GE_DEN, which is what ind_ge1 models exactly.  With
+   exact_ge1 = the number of cells whose value v/D satisfies v/D >= 1 (i.e. CPM >= 1):
+   - always  gt1 <= exact_ge1 <= ge1, gene by gene: every cell at or above 1 CPM is counted,
+     and the surplus of ge1 consists of cells with 1 - 1e-6 < log2(CPM+1) < 1, i.e.
+     0.99999861 < CPM < 1;
+   - ge1 = exact_ge1 when the values lie on a grid of step 1/D with D <= 999 999, and when
+     every value is an integer (a multiple of D);
+   - in general it is not (c09_ge1_exact_refuted, D = 2^21, v = 2^21 - 1): a cell with
+     log2(CPM+1) = 1 - 2^-21 < 1 is counted in ge1 and not in gt1.  The real code agrees
+     with the model on it, and a raw-count instance exists: a cell with 1 000 001 counts
+     in total and 1 count of the gene has CPM = 0.999999 and is counted as "at least 1".
+   So "at least 1" in the property text holds of the code only up to that tolerance: the
+   docs (precomputed_stats_file.md: "greater than or equal to 1 CPM") do not mention it,
+   the source comment does ("eps for float comparisons"); reported to the lead as a
+   low-severity finding candidate (class ge1-tolerance). *)
+Theorem c09_ge1_against_exact : forall D ng rows, 0 < D ->
+  let S := stats_of_rows D ng rows in
+  Forall2 Z.le (s_gt1 S) (exact_ge1 D ng rows) /\ Forall2 Z.le (exact_ge1 D ng rows) (s_ge1 S) /\
+  (D * (GE_DEN - GE_NUM) <= GE_DEN -> s_ge1 S = exact_ge1 D ng rows) /\
+  (Forall (Forall (fun v => exists k, v = k * D)) rows -> s_ge1 S = exact_ge1 D ng rows).
+Proof. exact ge1_against_exact. Qed.
+Print Assumptions c09_ge1_against_exact.
+
+Theorem c09_ge1_exact_refuted :
+  exists D ng rows, 0 < D /\
+    s_ge1 (stats_of_rows D ng rows) = [1] /\ exact_ge1 D ng rows = [0] /\
+    s_gt1 (stats_of_rows D ng rows) = [0].
+Proof. exact ge1_exact_refuted. Qed.
+Print Assumptions c09_ge1_exact_refuted.
+
+(* the boundary named by the audit, v = 2^21 - 1 < D = 2^21, next to the exact cases: the
+   value 1 (v = D) and a grid small enough (D = 8 <= 999 999: the examples above) *)
+Example c09_ge1_boundary :
+  2097151 < 2097152 /\
+  ind_ge1 2097152 2097151 = 1 /\ ind_ge1_exact 2097152 2097151 = 0 /\ ind_gt1 2097152 2097151 = 0 /\
+  ind_ge1 2097152 2097152 = 1 /\ ind_ge1_exact 2097152 2097152 = 1 /\ ind_gt1 2097152 2097152 = 0 /\
+  8 * (GE_DEN - GE_NUM) <= GE_DEN /\ 999999 * (GE_DEN - GE_NUM) <= GE_DEN /\
+  ~ (1000000 * (GE_DEN - GE_NUM) <= GE_DEN) /\
+  s_ge1 (stats_of_rows 8 2 [[8; 4]; [0; 16]; [9; 7]]) = exact_ge1 8 2 [[8; 4]; [0; 16]; [9; 7]].
+Proof.
+  split; [vm_compute; reflexivity|].
+  do 6 (split; [vm_compute; reflexivity|]).
+  split; [vm_compute; discriminate|]. split; [vm_compute; discriminate|].
+  split; [vm_compute; intros H; apply H; reflexivity|].
+  vm_compute. reflexivity.
 Qed.
